@@ -297,7 +297,7 @@ def chunk_model_cells(pq, data, lf, tbl):
     return out, None
 
 
-def run_case(lf, table, scratch, cats=False, kv=False):
+def run_case(lf, table, scratch, cats=False, kv=False, light=False):
     """encode with the spec encoder, read with fastparquet -> dict(outcome, problems, ...)"""
     from harness import fmtlib
     pq = _pq()
@@ -313,17 +313,22 @@ def run_case(lf, table, scratch, cats=False, kv=False):
             res["spec"] = "spec decoder disagrees with the generator's table"
     elif not features(lf)["raw"]:
         res["spec"] = "spec decoder: %s %s" % (d[0], d[1])
-    v = fm.validate(data, True, tbl)
-    res["valid"] = v[0] + ((": " + v[1]) if len(v) > 1 else "")
+    if light:
+        res["valid"] = "skipped (big pages)"
+    else:
+        v = fm.validate(data, True, tbl)
+        res["valid"] = v[0] + ((": " + v[1]) if len(v) > 1 else "")
     res["model_bad"], res["model_pages"] = [], 0
-    if not features(lf)["raw"]:
+    if light:
+        res["chunk_model"] = None
+    elif not features(lf)["raw"]:
         try:
             res["model_bad"], res["model_pages"] = model_vs_reader(pq, data, lf)
         except Exception as e:    # noqa
             import traceback
             res["model_bad"] = [({"harness": "model_vs_reader"}, "exception", traceback.format_exc()[-600:])]
     res["chunk_model"] = None
-    if not features(lf)["raw"]:
+    if not light and not features(lf)["raw"]:
         try:
             res["chunk_model"] = chunk_model_cells(pq, data, lf, tbl)
         except Exception as e:    # noqa
@@ -542,7 +547,7 @@ def _job(job):
     tmp = tempfile.mkdtemp(prefix="verif-C03w-", dir=_SCRATCH)
     try:
         try:
-            res = run_case(lf, table, tmp, cats=bool(expect.get("categories")), kv=bool(expect.get("kv")))
+            res = run_case(lf, table, tmp, cats=bool(expect.get("categories")), kv=bool(expect.get("kv")), light=bool(expect.get("light")))
         except Exception:   # noqa
             import traceback
             return {"outcome": "harness-error", "err": traceback.format_exc()[-1500:], "problems": []}
@@ -823,6 +828,18 @@ def gen_jobs(ctx):
                                     more = [({"b": ("x%03d" % i).encode().hex()} if lf["leaves"][0]["tag"] == "utf8" else 10 ** 12 + i) for i in range(extra)]
                                     it["vals"] = it["vals"] + [v for v in more if json.dumps(v, sort_keys=True) not in have]
                         jobs.append((lf, table, {"expect": "decode", "stream": "created-by-fastparquet-categories", "categories": True}))
+    # 6f. run-structure lattice entry "ONE RLE run covering the page" x index width 1..32 x v1/v2 x required/optional, repeated index with
+    #     high bytes set (deterministic block, identical on every run)
+    cb = G.constant_block()
+    for i, (lf, table) in enumerate(cb):
+        if not quick or i % 2 == (ctx.seed % 2) or lf["rgs"][0][0]["items"][1]["store"][2] in (9, 16, 17, 24, 25, 32):
+            jobs.append((lf, table, {"expect": "decode", "stream": "constant-rle-page"}))
+    # 6g. BIG pages (>= 64 KiB uncompressed): dictionary page, then dictionary-encoded data pages (+ a PLAIN fallback page), every codec -
+    #     what a page reader returns must not alias a buffer a later page overwrites.  Model ties are skipped for these (cost), the
+    #     specification decoder still reads every file back (instance of the round trip) and the real reader is compared cell by cell
+    for i, codec in enumerate([1, 2, 4, 5, 6, 7] + ([0, 1, 2, 4, 5, 6, 7] if not quick else [])):
+        lf, table = G.big_page_file(rng, codec, v2=bool(i % 2), text=bool((i // 2) % 2 == 1), npages=2 if quick else 3)
+        jobs.append((lf, table, {"expect": "decode", "stream": "big-pages", "light": True}))
     # 7. encodings the reader does not implement must be refused
     for enc in (6, 7, 9):
         for v2 in (False, True):
